@@ -327,8 +327,8 @@ func (vfs *MemFS) Link(oldname, newname string) error {
 	}
 
 	nParent, _, pi, nerr := vfs.searchNode(newname, slmLstat)
-	if !vfs.isNotExist(nerr) {
-		if vfs.OSType() == avfs.OsWindows {
+	if !vfs.isNotExist(nerr) || !pi.IsLast() {
+		if vfs.OSType() == avfs.OsWindows && !vfs.isNotExist(nerr) {
 			nerr = avfs.ErrWinAlreadyExists
 		}
 
@@ -1045,7 +1045,7 @@ func (vfs *MemFS) Symlink(oldname, newname string) error {
 	const op = "symlink"
 
 	parent, _, pi, nerr := vfs.searchNode(newname, slmLstat)
-	if !vfs.isNotExist(nerr) {
+	if !vfs.isNotExist(nerr) || !pi.IsLast() {
 		return &os.LinkError{Op: op, Old: oldname, New: newname, Err: nerr}
 	}
 
